@@ -40,4 +40,9 @@ CHECKS = {
   "text": "Every jcc/jmp/call/loop/jecxz/ret/iret/int/hlt/ud2 form (rel8/rel16/rel32 at boundary displacements, indirect and far forms, with operand/address-size and segment prefixes) and a stratified sample of all other opcode rows are decoded through a duck-typed stream at 10 offsets (0 .. 2^32-1). getnextflow, breakflow/splitflow/dstflow and getdstflow are compared with the architectural class of objdump's mnemonic and with offset+length+sext(disp) truncated to the operand size.",
   "note": "Trusted: objdump's mnemonic and length; the class table of the property statement. Strings with superfluous prefixes (objdump prints data16 before rel8 branches) or with a C01 length disagreement (rel16 forms under 0x66, a listed C01 finding) are not judged.",
  },
+ "C11": {
+  "technique": "enumeration of the decodable opcode x ModRM x prefix space, each instruction lifted and judged by an independent IR type checker (validity predicate); flag sources refuted by evaluation on sampled valuations",
+  "text": "Every decodable string of the structured byte space (incl. 0x66/0x67 forms, full ModRM grids, x87 and control transfers) whose mnemonic has lifted semantics is lifted; lifting must not raise and the assignment list must satisfy the well-formedness rules of the statement (assignment shape, operand-width agreement, slice bounds, Compose tiling, source/destination width with the 0/1-flag exception, no double write). All problems of an instruction are reported, each keyed by (rule, mnemonic, operand size).",
+  "note": "Trusted: vlib/irtype.py. A wide source of a 1-bit flag is only refuted by sampling (24 valuations); sources containing uninterpreted operators are undecided and counted. ~240 existing lifter defects are listed as open known findings.",
+ },
 }
